@@ -498,7 +498,7 @@ DRIVERS = ["seq", "seq", "source", "alter_static", "alter_meta", "nested", "spli
 
 
 @st.composite
-def history_case(draw):
+def history_case(draw, big=False):
     two = draw(st.integers(0, 3)) == 0
     pre = draw(st.lists(plain_stage, max_size=2))
     post = draw(st.lists(plain_stage, max_size=2))
@@ -506,7 +506,7 @@ def history_case(draw):
     if two:
         stages += draw(st.lists(plain_stage, max_size=2)) + [["cache", "B"]]
     stages += post
-    n = draw(st.integers(0, 8))
+    n = draw(st.integers(0, 16 if big else 8))
     nstages = len(stages)
     names = ["A", "B"] if two else ["A"]
     fallible = [-1] + [i for i, r in enumerate(stages) if r[0] != "cache"]
@@ -525,7 +525,7 @@ def history_case(draw):
             op["fault"] = [draw(st.sampled_from(fallible)), draw(st.integers(0, n))]
 
     ops = []
-    for _ in range(draw(st.integers(1, 6))):
+    for _ in range(draw(st.integers(1, 10 if big else 6))):
         kind = draw(st.sampled_from(["complete", "complete", "take", "take", "raise", "raise", "drop", "recompute", "kill"]))
         if kind == "drop":
             ops.append({"op": "drop", "which": draw(st.sampled_from(names))})
@@ -581,7 +581,7 @@ def crash_point_cases(tier):
 
 
 CHECKS = [
-    Check("histories", judge_history, strategy=lambda tier: history_case(), quick=1500, thorough=50000,
+    Check("histories", judge_history, strategy=lambda tier: history_case() if tier != "thorough" else st.one_of(history_case(), history_case(big=True)), quick=1500, thorough=50000,
           rule="pipelines pre* Cache [mid* Cache] post* x flows 0-8 (bare / fresh context / one shared context object updated in place / contexts large enough to cross file-buffer boundaries) x histories of 1-6 operations "
                "(complete run, take k, process killed after k values, raise at the source or any stage at its k-th value, recompute per cache, drop_cache) x drivers (Sequence, nested Sequences, Source, Cache.alter_sequence on flat and on nested sequences, "
                "lena.core.alter_sequence, single-block Split; fresh elements per run, or the same Sequence / Source object run again), ending with a complete run. "
